@@ -7,7 +7,10 @@
   Props/C07order.lean: storage order at the level of the mesh (a cell cycle rotated or reversed, the cell / vertex /
   mesh-edge dictionaries in another order): same interfaces up to order and direction, same coefficients, same
   least-squares objective per interface.
+  Props/C07more.lean: all cells stored differently at once, renumbering of cell ids and mesh-edge ids (interfaces,
+  classification, own cells, pressure system), the physical interfaces under the storage variants.
 -/
 import ForsysModel.Props.C07
 import ForsysModel.Props.C07matrix
 import ForsysModel.Props.C07order
+import ForsysModel.Props.C07more
